@@ -126,7 +126,7 @@ func genSimCloseCase(r *u.Rng) scCase {
 	}
 	if c.Timing == "handshake" {
 		c.Blocked = [2][]string{}
-		c.At = time.Duration(r.Range(0, 3*int(c.RTT/time.Microsecond))) * time.Microsecond
+		c.At = time.Duration(r.Range(0, 12*int(c.RTT/time.Microsecond)/10)) * time.Microsecond // the handshake takes about one RTT
 		if c.Client != "plain" && c.Client != "unil" && (c.Cause == "bad-tls" || c.Cause == "vneg") {
 			c.Client = "unil"
 		}
@@ -345,6 +345,12 @@ func runOneSimClose(c scCase) (fails []monFail, info string) {
 				d = <-dch
 			}
 			synctest.Wait()
+			if d.err != nil && (c.Cause == "dial-cancel" || c.Cause == "cli-transport-close") {
+				// the abandoned attempt is destroyed before Dial returns: nothing of it is left in the routing table
+				if counts, _, _ := quic.VerifRouting(e.CliTr, nil); len(counts) != 0 {
+					fail("simclose/routing-at-return/"+c.Cause, fmt.Sprintf("Dial returned %v but the client transport still routes to %v", d.err, counts))
+				}
+			}
 			if c.Cause == "vneg" {
 				if d.err != nil {
 					fail("simclose/vneg/dial", fmt.Sprintf("Dial after version negotiation failed: %v", d.err))
@@ -1031,9 +1037,14 @@ func runSimClose(w *bufio.Writer, seed uint64, n int, args []string) {
 		if only >= 0 && i != only {
 			continue
 		}
+		stop := watchdog(w, "simclose/livelock", c.String)
 		fails, info := runOneSimClose(c)
+		stop()
 		dist["cause="+c.Cause+"/"+c.Timing]++
 		dist["client="+c.Client]++
+		if strings.Contains(info, "handshake-won") {
+			dist["handshake-won-the-race"]++
+		}
 		fmt.Fprintf(w, "CASE 1 %s\n", c.String())
 		if i < 3 || os.Getenv("VERIF_VERBOSE") != "" {
 			fmt.Fprintf(w, "SAMPLE\ti=%d %s => %s\n", i, c.String(), info)
@@ -1079,8 +1090,8 @@ func fixupCase(c scCase) scCase {
 	}
 	if c.Timing == "handshake" {
 		c.Blocked = [2][]string{}
-		if c.At > 3*c.RTT {
-			c.At = c.RTT
+		if c.At > 12*c.RTT/10 {
+			c.At = c.RTT / 2
 		}
 		if (c.Cause == "bad-tls" || c.Cause == "vneg") && c.Client != "plain" {
 			c.Client = "unil"
